@@ -405,7 +405,18 @@ func posImplLine(fen string) string {
 		}
 		att := engine.VerifAttackMap(p)
 		full, mat := engine.VerifEval(p)
-		return fmt.Sprintf("OK|%s|%s|%s|%d|%d|%d|%s|%d|%d", snapText, legal, tact, cnt, tcnt, chk, att, full, mat)
+		// quiescence evaluates a position and then generates its captures from the same object: the lists after an evaluation
+		after := "same"
+		if s2 := engine.VerifSnapshot(p); s2 != snapText {
+			after = "snapshot-after-evaluation " + s2
+		} else if l2 := engine.VerifLegal(gen); l2 != legal {
+			after = "legal-after-evaluation " + l2
+		} else if t2 := engine.VerifTactical(gen); t2 != tact {
+			after = "tactical-after-evaluation " + t2
+		} else if c2 := engine.VerifCountTacticalMoves(p); c2 != tcnt {
+			after = fmt.Sprintf("tactical-count-after-evaluation %d", c2)
+		}
+		return fmt.Sprintf("OK|%s|%s|%s|%d|%d|%d|%s|%d|%d|%s", snapText, legal, tact, cnt, tcnt, chk, att, full, mat, after)
 	})
 }
 
